@@ -262,7 +262,7 @@ def verify_unit(reg, idx: SourceIndex, c: Contract, timeout_ms=None, seed=0, dis
     return res
 
 
-def refute_finite(reg, idx, c, names, scope=3, timeout_ms=20000, seed=0):
+def refute_finite(reg, idx, c, names, scope=3, timeout_ms=60000, seed=0):
     """Finite-instantiation refutation search for the named obligations of unit c: the unit is
     re-executed with every index quantifier expanded over the window -1..scope; the queries are
     quantifier free, so `sat` yields a concrete model.  Returns {name: obligation dict}."""
